@@ -1,0 +1,84 @@
+//go:build verif
+
+package s2
+
+import "github.com/golang/geo/s1"
+
+// Exports for the verification harness of C09 (lossless encoding) and C15 (total
+// decoding). Add-only; nothing here is reachable without the verif build tag.
+
+// VerifC09LoopRaw builds a Loop from raw field values (no origin/bound computation).
+func VerifC09LoopRaw(vs []Point, originInside bool, depth int, bound Rect) *Loop {
+	l := &Loop{vertices: vs, originInside: originInside, depth: depth, bound: bound}
+	l.subregionBound = ExpandForSubregions(bound)
+	l.index = NewShapeIndex()
+	l.index.Add(l)
+	return l
+}
+
+// VerifC09LoopFields returns the fields of a Loop that the encodings carry.
+func VerifC09LoopFields(l *Loop) (vs []Point, originInside bool, depth int, bound Rect) {
+	return l.vertices, l.originInside, l.depth, l.bound
+}
+
+// VerifC09PolygonRaw builds a Polygon from raw field values.
+func VerifC09PolygonRaw(loops []*Loop, hasHoles bool, bound Rect) *Polygon {
+	p := &Polygon{loops: loops, hasHoles: hasHoles, bound: bound}
+	for _, l := range loops {
+		p.numVertices += len(l.vertices)
+	}
+	p.subregionBound = ExpandForSubregions(bound)
+	p.initEdgesAndIndex()
+	return p
+}
+
+// VerifC09PolygonFields returns the fields of a Polygon that the encodings carry.
+func VerifC09PolygonFields(p *Polygon) (loops []*Loop, hasHoles bool, bound Rect, numVertices int) {
+	return p.loops, p.hasHoles, p.bound, p.numVertices
+}
+
+// VerifC09XYZToFaceSiTi exposes the cell-centre detection.
+func VerifC09XYZToFaceSiTi(p Point) (face int, si, ti uint32, level int) { return xyzToFaceSiTi(p) }
+
+// VerifC09FaceSiTiToXYZ exposes the unnormalised centre.
+func VerifC09FaceSiTiToXYZ(face int, si, ti uint32) Point { return faceSiTiToXYZ(face, si, ti) }
+
+// VerifC09FacePiQiToXYZ exposes the decoder's reconstruction of a cell centre.
+func VerifC09FacePiQiToXYZ(face int, pi, qi uint32, level int) Point {
+	return Point{facePiQitoXYZ(face, pi, qi, level)}
+}
+func VerifC09SiTiToPiQi(si uint32, level int) uint32 { return siTitoPiQi(si, level) }
+func VerifC09PiQiToST(pi uint32, level int) float64  { return piQiToST(pi, level) }
+func VerifC09SiTiToST(si uint32) float64             { return siTiToST(si) }
+func VerifC09ZigzagEncode(x int32) uint32            { return zigzagEncode(x) }
+func VerifC09ZigzagDecode(x uint32) int32            { return zigzagDecode(x) }
+func VerifC09Interleave(x, y uint32) uint64          { return interleaveUint32(x, y) }
+func VerifC09Deinterleave(c uint64) (uint32, uint32) { return deinterleaveUint32(c) }
+func VerifC09Limits() (maxVertices, maxLoops int)    { return maxEncodedVertices, maxEncodedLoops }
+
+// VerifC09NthEncode / VerifC09NthDecode run a whole sequence through a coder of order n.
+func VerifC09NthEncode(n int, xs []int32) []int32 {
+	c := newNthDerivativeCoder(n)
+	out := make([]int32, len(xs))
+	for i, x := range xs {
+		out[i] = c.encode(x)
+	}
+	return out
+}
+func VerifC09NthDecode(n int, xs []int32) []int32 {
+	c := newNthDerivativeCoder(n)
+	out := make([]int32, len(xs))
+	for i, x := range xs {
+		out[i] = c.decode(x)
+	}
+	return out
+}
+
+// VerifC09CapRaw / VerifC09CapFields give access to the raw chord-angle radius of a Cap.
+func VerifC09CapRaw(center Point, radius float64) Cap {
+	return Cap{center: center, radius: s1.ChordAngle(radius)}
+}
+func VerifC09CapFields(c Cap) (center Point, radius float64) { return c.center, float64(c.radius) }
+
+// VerifC09CellFaceSiTi returns the (face, si, ti) of a cell's centre.
+func VerifC09CellFaceSiTi(ci CellID) (int, uint32, uint32) { return ci.faceSiTi() }
